@@ -176,4 +176,32 @@ where
                     Err(b) => exists|e: E| f.resolves(Err(e)) && call_ensures(<BoxError as From<E>>::from, (e,), b),
                 })'''),
          ])
+    # Reconnect::new: a fresh channel service is idle, has never been connected, carries no parked error, and is lazy exactly if asked
+    hdrn = 'impl<M, Target> Reconnect<M, Target> where M: Service<Target> {'
+    u.fn(R, 'new', within='impl<M, Target> Reconnect<M, Target>', nth=0, header=hdrn, close=True, display='Reconnect::new',
+         ensures=[Clause('N1_a_fresh_channel_service_is_idle_never_connected_and_lazy_exactly_if_asked',
+                         'r.state is Idle && r.error is None && !r.has_been_connected && r.is_lazy == is_lazy && r.mk_service == mk_service && r.target == target')])
+    # ---- Connection::{lazy, connect}: which of the two Reconnect behaviours a channel gets (connection.rs) ----
+    CN = 'tonic/src/transport/channel/service/connection.rs'
+    u._emit('pub mod connection {\nuse super::*;')
+    u.raw("""
+// A-tonic-conn-01: Connection::new (hyper client settings and the tower stack around Reconnect; not under contract) builds the
+// channel service with the given laziness; ServiceExt::ready_oneshot drives it to readiness and hands the same service back
+pub struct Endpoint { pub id: Ghost<int> }
+pub struct Connection { pub lazy: Ghost<bool>, pub endpoint: Ghost<Endpoint> }
+impl Connection {
+    #[verifier::external_body]
+    pub fn new<C>(connector: C, endpoint: Endpoint, is_lazy: bool) -> (r: Self) ensures r.lazy@ == is_lazy, r.endpoint@ == endpoint { unimplemented!() }
+    #[verifier::external_body]
+    pub async fn ready_oneshot(self) -> (r: Result<Self, BoxError>) ensures r matches Ok(c) ==> c == self { unimplemented!() }
+}
+""")
+    gen = [lambda t: t.sub_code('R12', r'\bwhere\b[^{]*', ''), lambda t: t.sub_code('R12', r'crate::BoxError', 'BoxError')]
+    u._emit('impl Connection {'); u._open_header = 'impl Connection {'
+    u.fn(CN, 'connect', within='impl Connection', sig_edits=gen,
+         ensures=[Clause('L1_connect_builds_an_eager_channel_and_drives_it_to_readiness', 'r matches Ok(c) ==> !c.lazy@ && c.endpoint@ == endpoint')])
+    u.fn(CN, 'lazy', within='impl Connection', sig_edits=gen,
+         ensures=[Clause('L2_lazy_builds_a_lazy_channel', 'r.lazy@ && r.endpoint@ == endpoint')])
+    u.close('}')
+    u._emit('} // mod connection')
     return u
